@@ -3,7 +3,9 @@
    PROVED: (every scalar type, any E x L integer signature) the L matrix of the metadata has L*L
    entries, entry (i,j) is the accumulation over the edges, in index order from zero, of
    from_isize(s_ei*s_ej)*x_e, and it is symmetric bit for bit; (any real closed field) it is
-   S^T X S, the returned u is its determinant (under the positive-pivot hypothesis of C15), and
+   S^T X S, the returned u is its determinant whenever the Feynman parameters are positive and the
+   signature columns are linearly independent (a cycle basis; positivity of the Cholesky pivots is
+   then proved, Proofs/SPD.v), and
    det(S^T X S) is multiplied by det(Mc)^2 under a change of cycle basis Mc with edge
    reorientations, hence unchanged for unimodular Mc.
    NOT PROVED (named gap): "(det S_I)^2 is 1 if E \ I is a spanning tree and 0 otherwise" for a
@@ -12,7 +14,7 @@
 From Coq Require Import ZArith List.
 From mathcomp Require Import all_ssreflect all_algebra.
 From MT Require Import Model.Scalar Model.Matrix Model.Sampling
-  Proofs.LMatrix Proofs.CholSpec Proofs.LinAlg Proofs.Symanzik Proofs.SymBridge.
+  Proofs.LMatrix Proofs.CholSpec Proofs.LinAlg Proofs.Symanzik Proofs.SymBridge Proofs.SPD.
 Set Implicit Arguments.
 Unset Strict Implicit.
 Import GRing.Theory Num.Theory.
@@ -41,11 +43,12 @@ Proof. move=> F nE nL x sig H; exact: l_matrix_bridge. Qed.
 Theorem C08_u_is_det : forall (F : rcfType) (nE p : nat) (x : list F) (sig : list (list Z)),
   List.length sig = nE ->
   let lm := compute_l_matrix (FS F) x sig p.+1 in
-  (forall c : 'I_p.+1, 0 < pivot (FS F) p.+1 lm c) ->
+  (forall e : 'I_nE, 0 < List.nth e x 0) -> row_free (Sm F nE p.+1 sig)^T ->
   decompose_for_tropical (FS F) p.+1 lm None = Ok (inr (decomp_fields (FS F) p.+1 lm)) /\
   d_determinant (decomp_fields (FS F) p.+1 lm) = \det (Lm (Sm F nE p.+1 sig) (xr nE x)).
 Proof.
-  move=> F nE p x sig Hsig lm Hpiv.
+  move=> F nE p x sig Hsig lm Hxpos Hfree.
+  have Hpiv : forall c : 'I_p.+1, 0 < pivot (FS F) p.+1 lm c by exact: (l_matrix_pivots_pos Hsig Hxpos Hfree).
   have EL : mx_of p.+1 lm = Lm (Sm F nE p.+1 sig) (xr nE x) by exact: l_matrix_bridge.
   have Msym : forall i j : 'I_p.+1, mx_of p.+1 lm i j = mx_of p.+1 lm j i.
     by move=> i j; rewrite EL -{1}(Lm_sym (Sm F nE p.+1 sig) (xr nE x)) mxE.
@@ -77,3 +80,13 @@ Example C08_example :
                       ((Zpos xH :: Z0 :: nil) :: (Zpos xH :: Zneg xH :: nil) :: (Z0 :: Zpos xH :: nil) :: nil) 2) =
   List.map bits_of (3 :: -2 :: -2 :: 6 :: nil)%float.
 Proof. by vm_compute. Qed.
+
+(* non-vacuity of the independence hypothesis: two loops sharing the middle edge *)
+Example C08_row_free_example (F : rcfType) :
+  row_free (Sm F 3 2 ((Zpos xH :: Z0 :: nil) :: (Zpos xH :: Zneg xH :: nil) :: (Z0 :: Zpos xH :: nil) :: nil))^T.
+Proof.
+  apply/row_freeP.
+  exists (\matrix_(e, l) (((nat_of_ord e == 0%N) && (nat_of_ord l == 0%N)) || ((nat_of_ord e == 2%N) && (nat_of_ord l == 1%N)))%:R).
+  apply/matrixP => i j; rewrite !mxE !big_ord_recl big_ord0 !mxE /=.
+  by case: i => [[|[|i]] Hi] //; case: j => [[|[|j]] Hj] //=; rewrite /sig_at /= ?mulr1 ?mulr0 ?mul0r ?addr0 ?add0r ?mul1r.
+Qed.
